@@ -217,6 +217,118 @@ theorem cancelled_before_no_call (retryIf : ε → Bool) (attempts : Nat) (rs : 
     (fuel : Nat) (h : done 0 = true) : retryDo retryIf attempts rs done fuel = some (0, .ctx) := by
   simp [retryDo, h]
 
+/-! ### the caller's context ends at some point (`done`): what the caller may get -/
+
+/-- under ANY context behaviour the loop either runs to the statement's last call and returns its
+result, or stops in between attempts (after a retryable error, context ended) with the context's cause -/
+theorem loopB_cases (retryIf : ε → Bool) (rs : Nat → Res ε) (done : Nat → Bool) (r i : Nat) :
+    ((loopB retryIf rs done i r).1 = i + min (leadingRetryable retryIf rs (r + 1) i + 1) (r + 1) ∧
+      (loopB retryIf rs done i r).2 = toOut (rs ((loopB retryIf rs done i r).1 - 1))) ∨
+    (i < (loopB retryIf rs done i r).1 ∧
+      (loopB retryIf rs done i r).1 < i + min (leadingRetryable retryIf rs (r + 1) i + 1) (r + 1) ∧
+      done (loopB retryIf rs done i r).1 = true ∧ (loopB retryIf rs done i r).2 = .ctx) := by
+  induction r generalizing i with
+  | zero =>
+    left
+    unfold loopB leadingRetryable
+    cases h : rs i with
+    | ok v => simp [toOut, h]
+    | err e => by_cases hr : retryIf e <;> simp [hr, toOut, h, leadingRetryable]
+  | succ r ih =>
+    unfold loopB leadingRetryable
+    cases h : rs i with
+    | ok v => left; simp [toOut, h]
+    | err e =>
+      by_cases hr : retryIf e
+      · simp only [hr, Bool.not_true, Bool.false_eq_true, if_false, if_true]
+        have e1 : i + 1 + min (leadingRetryable retryIf rs (r + 1) (i + 1) + 1) (r + 1)
+            = i + min (1 + leadingRetryable retryIf rs (r + 1) (i + 1) + 1) (r + 1 + 1) := by omega
+        by_cases hd : done (i + 1) = true
+        · right
+          rw [if_pos hd]
+          exact ⟨by omega, by omega, hd, rfl⟩
+        · rw [if_neg hd]
+          rcases ih (i + 1) with ⟨h1, h2⟩ | ⟨h1, h2, h3, h4⟩
+          · left; exact ⟨by rw [h1, e1], h2⟩
+          · right; exact ⟨by omega, by rw [← e1]; exact h2, h3, h4⟩
+      · left; simp [hr, toOut, h]
+
+/-- **C15 under a context that may end**: whatever the context does, the caller gets either the
+statement's result (exactly `specCalls` calls, first success or last error), or — only if the context
+had ended in between attempts, before a further attempt was due — the context's cause. -/
+theorem retryDo_cases (retryIf : ε → Bool) (attempts : Nat) (h : 1 ≤ attempts) (rs : Nat → Res ε)
+    (done : Nat → Bool) (fuel c : Nat) (o : Out ε)
+    (hr : retryDo retryIf attempts rs done fuel = some (c, o)) :
+    (c = specCalls retryIf attempts rs ∧ o = specOut retryIf attempts rs) ∨
+    (c < specCalls retryIf attempts rs ∧ done c = true ∧ o = .ctx) := by
+  have ha : attempts - 1 + 1 = attempts := by omega
+  unfold retryDo at hr
+  split at hr
+  · rename_i hd
+    simp at hr
+    right
+    have := specCalls_pos retryIf attempts h rs
+    rcases hr with ⟨rfl, rfl⟩
+    exact ⟨by omega, hd, rfl⟩
+  · rw [if_neg (by omega)] at hr
+    simp at hr
+    have hc := loopB_cases retryIf rs done (attempts - 1) 0
+    rw [hr, ha] at hc
+    simp only [Nat.zero_add] at hc
+    rcases hc with ⟨h1, h2⟩ | ⟨_, h2, h3, h4⟩
+    · left
+      have hcs : c = specCalls retryIf attempts rs := by unfold specCalls; exact h1
+      refine ⟨hcs, ?_⟩
+      rw [specOut_eq, ← hcs]; exact h2
+    · right; exact ⟨by unfold specCalls; exact h2, h3, h4⟩
+
+/-- the executable form used by the driver's statement oracle -/
+theorem retryDo_allowed (retryIf : ε → Bool) (attempts : Nat) (h : 1 ≤ attempts) (rs : Nat → Res ε)
+    (done : Nat → Bool) (fuel c : Nat) (o : Out ε)
+    (hr : retryDo retryIf attempts rs done fuel = some (c, o)) :
+    (c, o) ∈ specAllowed retryIf attempts rs done := by
+  unfold specAllowed
+  rcases retryDo_cases retryIf attempts h rs done fuel c o hr with ⟨h1, h2⟩ | ⟨h1, h2, h3⟩
+  · subst h1 h2; exact List.mem_cons_self
+  · subst h3
+    refine List.mem_cons_of_mem _ (List.mem_map.mpr ⟨c, ?_, rfl⟩)
+    exact List.mem_filter.mpr ⟨List.mem_range.mpr h1, h2⟩
+
+/-- with a context that never ends the allowed set is the single statement result -/
+theorem specAllowed_noCancel (retryIf : ε → Bool) (attempts : Nat) (rs : Nat → Res ε) :
+    specAllowed retryIf attempts rs noCancel =
+      [(specCalls retryIf attempts rs, specOut retryIf attempts rs)] := by
+  unfold specAllowed
+  have : (List.range (specCalls retryIf attempts rs)).filter noCancel = [] := by
+    apply List.filter_eq_nil_iff.mpr; intro a _; simp [noCancel]
+  rw [this]; rfl
+
+/-- a success obtained from the last call made is what the caller gets, even if the caller's context
+ended while that call was in flight (any context behaviour) -/
+theorem success_never_masked (retryIf : ε → Bool) (attempts : Nat) (h : 1 ≤ attempts) (rs : Nat → Res ε)
+    (done : Nat → Bool) (fuel c v : Nat) (o : Out ε)
+    (hr : retryDo retryIf attempts rs done fuel = some (c + 1, o)) (hok : rs c = .ok v) :
+    o = .ok v := by
+  rcases retryDo_cases retryIf attempts h rs done fuel (c + 1) o hr with ⟨h1, h2⟩ | ⟨h1, _, _⟩
+  · rw [h2, specOut_eq, ← h1]; simp [hok, toOut]
+  · -- c + 1 < specCalls: call c would have been followed by another one, so it returned a retryable error
+    exfalso
+    have := reissued_only_after_retryable retryIf attempts h rs noCancel fuel _ _
+      (retryDo_spec retryIf attempts h rs fuel) c h1
+    simp [hok, isRetryErr] at this
+
+/-- likewise a non-retryable error of the last call made is returned as it is -/
+theorem nonretryable_never_masked (retryIf : ε → Bool) (attempts : Nat) (h : 1 ≤ attempts) (rs : Nat → Res ε)
+    (done : Nat → Bool) (fuel c : Nat) (e : ε) (o : Out ε)
+    (hr : retryDo retryIf attempts rs done fuel = some (c + 1, o)) (he : rs c = .err e)
+    (hn : retryIf e = false) : o = .err e := by
+  rcases retryDo_cases retryIf attempts h rs done fuel (c + 1) o hr with ⟨h1, h2⟩ | ⟨h1, _, _⟩
+  · rw [h2, specOut_eq, ← h1]; simp [he, toOut]
+  · exfalso
+    have := reissued_only_after_retryable retryIf attempts h rs noCancel fuel _ _
+      (retryDo_spec retryIf attempts h rs fuel) c h1
+    simp [he, isRetryErr, hn] at this
+
 /-! ### `attempts = 0` (library semantics: retry until success; OUTSIDE the property's quantifier) -/
 
 theorem loopU_stop (retryIf : ε → Bool) (rs : Nat → Res ε) (fuel i j : Nat) (hf : j < fuel)
@@ -264,6 +376,10 @@ example : specCalls id 4 demo = 3 ∧ specOut id 4 demo = .ok 7 := by decide
 example : retryDo id 4 (fun _ => .err false) noCancel 0 = some (1, .err false) := by decide
 example : retryDo id 0 demo noCancel 5 = some (3, .ok 7) := by decide
 example : retryDo id 4 demo (fun k => k ≥ 1) 0 = some (1, .ctx) := by decide
+-- context ends during call 3 (the success): the success is returned; allowed set has the ctx outcomes too
+example : retryDo id 4 demo (fun k => k ≥ 3) 0 = some (3, .ok 7) := by decide
+example : specAllowed id 4 demo (fun k => decide (k ≥ 2)) = [(3, .ok 7), (2, .ctx)] := by decide
+example : (3, Out.ctx) ∉ specAllowed id 4 demo (fun k => decide (k ≥ 2)) := by decide
 -- hypotheses of stops_at_first_terminal are satisfiable with j = 2
 example : (∀ k, k < 2 → isRetryErr id (demo k) = true) ∧ isRetryErr id (demo 2) = false := by decide
 
